@@ -41,7 +41,24 @@ def var(name, cls='v', ty='i', init=None, const=False):
 # printing
 # ------------------------------------------------------------------------------------------------
 
-def print_vars(vs, indent='  '):
+class Style:
+    """spelling choices of the printer that leave the abstract unit unchanged: an enumerated value written with or
+    without the name of its type (`T#V` / `V`) per occurrence, and the letter case of every identifier occurrence"""
+    def __init__(self, rng=None, vary=False):
+        self.rng = rng; self.vary = vary and rng is not None
+    def enumval(self, tname, v):
+        if self.vary and self.rng.random() < 0.35: return f'{nm(tname)}#{nm(v)}'
+        return nm(v)
+    def respell(self, text):
+        if not self.vary: return text
+        import re
+        return re.sub(r'\bN(\d+)\b', lambda m: ('n' if self.rng.random() < 0.5 else 'N') + m.group(1), text)
+
+
+PLAIN = Style()
+
+
+def print_vars(vs, indent='  ', sty=PLAIN):
     out = []
     # consecutive variables with the same class and qualifier share a block
     i = 0
@@ -59,7 +76,7 @@ def print_vars(vs, indent='  '):
                     # the literal kind follows the type (STRING: single quotes, WSTRING: double quotes)
                     q = '"' if ty_st('s', v.get('sform', 0)).startswith('W') else "'"
                     init = f" := {q}{['log', '', 'a b', 'x'][v['init'] % 4]}{q}"
-                else: init = f" := {nm(v['init'])}"
+                else: init = f" := {sty.enumval(v['ty'][1], v['init'])}"
             out.append(f"{indent}  {nm(v['name'])} : {ty_st(v['ty'], v.get('sform', 0))}{init};\n")
         out.append(f'{indent}END_VAR\n')
         i = j
@@ -91,15 +108,15 @@ def print_stmt(s, rng=None, indent='  '):
     return txt
 
 
-def print_decl(d, rng=None):
+def print_decl(d, rng=None, sty=PLAIN):
     k = d[0]
     if k == 'E':
-        dflt = f' := {nm(d[3])}' if d[3] is not None else ''
-        return f"TYPE\n  {nm(d[1])} : ({', '.join(nm(v) for v in d[2])}){dflt};\nEND_TYPE\n"
+        dflt = f' := {sty.enumval(d[1], d[3])}' if d[3] is not None else ''
+        return f"TYPE\n  {nm(d[1])} : ({', '.join(sty.enumval(d[1], v) for v in d[2])}){dflt};\nEND_TYPE\n"
     if k == 'A':
         return f'TYPE\n  {nm(d[1])} : {nm(d[2])};\nEND_TYPE\n'
     if k == 'S':
-        es = ''.join(f"    {nm(e[0])} : {ty_st(e[1])}{' := ' + nm(e[2]) if len(e) > 2 and e[2] is not None else ''};\n" for e in d[2])
+        es = ''.join(f"    {nm(e[0])} : {ty_st(e[1])}{' := ' + sty.enumval(e[1][1], e[2]) if len(e) > 2 and e[2] is not None else ''};\n" for e in d[2])
         return f'TYPE\n  {nm(d[1])} : STRUCT\n{es}  END_STRUCT;\nEND_TYPE\n'
     if k == 'R':
         return f'TYPE\n  {nm(d[1])} : INT ({d[2]}..{d[3]});\nEND_TYPE\n'
@@ -107,16 +124,30 @@ def print_decl(d, rng=None):
         head = {'F': 'FUNCTION_BLOCK', 'U': 'FUNCTION', 'P': 'PROGRAM'}[k]
         ret = ' : INT' if k == 'U' else ''
         body = ''.join(print_stmt(s, rng) for s in d[3])
-        return f'{head} {nm(d[1])}{ret}\n{print_vars(d[2])}{body}END_{head}\n'
+        return f'{head} {nm(d[1])}{ret}\n{print_vars(d[2], sty=sty)}{body}END_{head}\n'
     if k == 'C':
         tasks = ''.join(f'    TASK {nm(t)}(INTERVAL := T#100ms, PRIORITY := 1);\n' for t in d[3])
         progs = ''.join(f"    PROGRAM {nm(i)}{' WITH ' + nm(t) if t is not None else ''} : {nm(p)};\n" for i, t, p in d[4])
-        return f'CONFIGURATION {nm(d[1])}\n{print_vars(d[2])}  RESOURCE N8000 ON PLC\n{tasks}{progs}  END_RESOURCE\nEND_CONFIGURATION\n'
+        return f'CONFIGURATION {nm(d[1])}\n{print_vars(d[2], sty=sty)}  RESOURCE N8000 ON PLC\n{tasks}{progs}  END_RESOURCE\nEND_CONFIGURATION\n'
     raise ValueError(d)
 
 
-def print_file(decls, rng=None):
-    return '\n'.join(print_decl(d, rng) for d in decls)
+OSCAT_BODIES = ['\n', ' (* doc *) ', '\n(* version 1.1 *)\n(* author: nobody *)\n', '\r\n(* Gr\u00f6\u00dfe *)\r\n', '\n\n\t\n']
+
+
+def oscat_header(rng):
+    """an OSCAT description header whose body is layout and comments only: with or without the blanking of
+    preprocessor.rs the text means the same, wherever and however often it stands between declarations"""
+    return '(*@KEY@:DESCRIPTION*)' + rng.choice(OSCAT_BODIES) + '(*@KEY@:END_DESCRIPTION*)\n'
+
+
+def print_file(decls, rng=None, vary=False, headers=None):
+    """headers: a random source -> declarations are preceded (each with probability 0.6) by an OSCAT description header"""
+    sty = Style(rng, vary)
+    parts = [print_decl(d, rng, sty) for d in decls]
+    if headers is not None:
+        parts = [(oscat_header(headers) if headers.random() < 0.6 else '') + p for p in parts]
+    return sty.respell('\n'.join(parts))
 
 
 # ------------------------------------------------------------------------------------------------
